@@ -238,7 +238,7 @@ pub fn check_case(c: &Case, rep: &mut Report) {
 
 pub fn run(cfg: &Cfg) -> Report {
     let seed = cfg.seed;
-    let per = cfg.n(100, 1500);
+    let per = cfg.n(100, 20_000);
     par_run(cfg, 32 * per, 4, |i, rep| {
         let combo = i % 32;
         let idx = i / 32;
